@@ -192,21 +192,18 @@ def every_rule(ctx, f, cfg):
     if not ctx.floor("C01.every-rule", "get_traffic_controller_list_for call in the flow slot", len(lists), 1):
         return
     sl = Slicer(f, b)
-    cls = make_classifier([("verdict", ["call:can_pass_check"], ["call:Iterator::next"]), ("iter", ["call:Iterator::next"], [])])
-    # the helper's name is private: classify by "a local flow fn returning TokenResult"
-    helper_names = set()
-    for bb, t in b.calls():
-        for x in f.call_targets(b, t):
-            hb = f.bodies.get(x)
-            if hb is not None and "::flow::" in x and hb.ret_ty.endswith("TokenResult") and hb.kind == "Fn":
-                helper_names.add(x.rsplit("::", 1)[-1])
+    cls = make_classifier([("iter", ["call:Iterator::next"], [])])
+    # the per-rule verdict is what the controller's public perform_checking returned (private helpers between the slot and the
+    # controller are inlined in the view, so their names and number do not matter)
+    VERDICT = "call:Controller::perform_checking"
 
     def classify(atoms, op=None):
-        if any(any_atom(atoms, "call:" + h) for h in helper_names) and "discr" in atoms:
+        if any_atom(atoms, VERDICT) and "discr" in atoms:
             return "verdict"
-        if any_atom(atoms, "call:Iterator::next") and not any(any_atom(atoms, "call:" + h) for h in helper_names):
+        if op is not None and discr_of_call(b, op, "Iterator::next"):
             return "iter"
-        return cls(atoms, op)
+        keep = sorted(short(a) for a in atoms if a.startswith(("field:core", "call:core")))
+        return "other:" + ",".join(keep[:6])
     w = D.Walker(f, b, classify)
     sets = {bb for bb, t in b.calls() if callee_is(t, "EntryContext::set_result")}
     sleeps = {bb for bb, t in b.calls() if callee_is(t, "utils::sleep_for_ns", "sleep_for_ns")}
@@ -238,7 +235,7 @@ def every_rule(ctx, f, cfg):
     # stored verdict is the checker's; returned value is the context's verdict
     for sb in sets:
         a = sl.of_operand(b.term(sb)["args"][1])
-        oks = any(any_atom(a, "call:" + h) for h in helper_names)
+        oks = any_atom(a, VERDICT)
         ctx.instance("C01.every-rule/stored", b.path, "stored verdict derives from the per-rule check: %s" % oks, "true", oks, cfg)
         if not oks:
             ctx.violation("C01.every-rule", "C01.every-rule|stored", "the verdict stored by the flow slot is not the one its check produced", b.loc(sb), config=cfg)
@@ -349,8 +346,9 @@ def _bb_of(b, t):
 
 
 def wiring(ctx, f, cfg):
-    gens = [b for p, b in f.bodies.items() if "::flow::rule_manager" in p and b.kind == "Fn" and "StandaloneStat>" in b.ret_ty
-            and b.ret_ty.startswith("std::result::Result<") and any(callee_is(t, "StandaloneStat::new") for _, t in b.calls())]
+    gens = [f.view(b) for p, b in f.bodies.items() if "::flow::rule_manager" in p and b.kind == "Fn" and "StandaloneStat>" in b.ret_ty
+            and b.ret_ty.startswith("std::result::Result<")]
+    gens = [b for b in gens if any(callee_is(t, "StandaloneStat::new") for _, t in b.calls())]
     if not ctx.floor("C01.wiring", "flow rule_manager fn returning Result<Arc<StandaloneStat>> (generate_stat_for)", len(gens), 1):
         return
     b = gens[0]
@@ -358,7 +356,7 @@ def wiring(ctx, f, cfg):
     sites = [(bb, t) for bb, t in b.calls() if callee_is(t, "StandaloneStat::new")]
     ctx.floor("C01.wiring", "StandaloneStat::new sites in generate_stat_for", len(sites), 2)
     for bb, t in sites:
-        reuse = const_val(t["args"][0])
+        reuse = resolve_const(b, t["args"][0])
         r = sl.of_operand(t["args"][1])
         wv = sl.of_operand(t["args"][2])
         if reuse == 1:
